@@ -283,7 +283,7 @@ def run(tier, seed):
                 run.known(r['known'], r['desc'])
             else:
                 run.violation(r['name'][:50], {'property': 'C19', 'obligation': r['name'], 'history': r['desc'], 'script': r['script'],
-                                               'predicted': r['pred'], 'native': got})
+                                               'predicted': r['pred'], 'native': nat})
     if res2:
         run.absorb_stats(res2['stats'])
         for r in res2['results']:
